@@ -533,10 +533,9 @@ func genCase(r *rand.Rand, noargs bool, multiRedef bool) Case {
 				f = last
 			}
 		} else {
-			// each function is redefined at most once; recursive functions rarely
-			// (a recursive function refers to itself before it is defined)
+			// each function is redefined at most once
 			tries := 0
-			for (1 < nver[f] || (0 <= g.sigs[f].rec && r.IntN(5) != 0)) && tries < 8 {
+			for 1 < nver[f] && tries < 8 {
 				f = r.IntN(n)
 				tries++
 			}
